@@ -34,7 +34,12 @@ func runFault(prop string) *ShardResult {
 				ops = append(ops, core.Op{K: "D", Min: m.First + 1, Max: m.Last})
 			}
 		}
-		return append(ops, core.Op{K: "S", Key: "k1", Val: []byte("v")})
+		ops = append(ops, core.Op{K: "S", Key: "k1", Val: []byte("v")})
+		if m.Last > 0 {
+			// a clean Close followed by an Open in which a step may fail (listing, metadata load, reads of recovery)
+			ops = append(ops, core.Op{K: "R"})
+		}
+		return ops
 	}
 	cont := faultCont
 	_ = func(m *core.Model, failed *core.Op) []core.Op {
